@@ -18,7 +18,7 @@
     uses the same token (C14; oracle + balance correspondence). *)
 From LP Require Import Proofs.Tactics Proofs.LedgerBase Proofs.Gates Proofs.Frames Proofs.Settle Proofs.Confirm Proofs.Ledger
   Proofs.ClaimLedger Proofs.Loop Proofs.Resume Proofs.FisherYates Proofs.Shuffle Proofs.Rng Proofs.Filter Proofs.Partition
-  Proofs.Resume3 Proofs.GuaranteedLoop Proofs.Leftover Proofs.Lifecycle Proofs.Setup Proofs.SetupGt Proofs.Examples.
+  Proofs.Resume3 Proofs.GuaranteedLoop Proofs.Leftover Proofs.Lifecycle Proofs.Setup Proofs.SetupPrice Proofs.SetupGt Proofs.Examples.
 Open Scope N_scope.
 
 Theorem C01_confirm_keeps_solvency : forall (H : list N -> list N) v e b sd w n w' r A,
@@ -199,6 +199,13 @@ Proof. exact pipeline_gt. Qed.
 Theorem C01_setup_reach : forall (H : list N -> list N) v w, plain v -> setup_reach H v w -> exists l, PreSel w l.
 Proof. exact setup_reach_PreSel. Qed.
 
+(** the same with a prefix - before anybody has confirmed - in which the owner may also change the
+    ticket price and its token ([setup_callA]); while nobody has confirmed the contract holds nothing
+    but the deposited launchpad tokens, so the new price finds the till empty.  (Once a confirmation
+    was accepted the stage is Confirm for good - C06 - and the setter is rejected - C17.) *)
+Theorem C01_setup_reach_price : forall (H : list N -> list N) w, setup_reach2 H w -> exists l, PreSel w l.
+Proof. exact setup_reach2_PreSel. Qed.
+
 Theorem C01_from_deployment : forall (H : list N -> list N) v w0 lf wf ef bf w1 ls ws es bs w2 sd rest,
   plain v -> setup_reach H v w0 ->
   after_interrupted filter_tickets lf w0 = Some wf -> filter_tickets ef bf wf = Ok (w1, 0) ->
@@ -310,6 +317,7 @@ Print Assumptions C01_pipeline_gt.
 Print Assumptions C01_pipeline_nft.
 Print Assumptions C01_pipeline_ngt.
 Print Assumptions C01_setup_reach.
+Print Assumptions C01_setup_reach_price.
 Print Assumptions C01_from_deployment.
 Print Assumptions C01_setup_nonvacuous.
 Print Assumptions C01_from_deployment_gt.
